@@ -411,8 +411,8 @@ static void runGreedyTable(Rng & rng, int fixed) {
 static Gen genBig(Rng & rng, int fixed, int & tieStyle) {
     Gen G; G.dyadic = false; G.den = 8;
     G.S = (size_t)rng.range(1, 5); G.A = (size_t)rng.range(2, 4);
-    static const double gs[] = {0.5, 0.75, 0.9, 0.95};
-    G.g = gs[rng.below(4)];
+    static const double gs[] = {0.5, 0.75, 0.9, 0.95, 0.25};
+    G.g = gs[rng.below(5)];
     int e = (int)rng.range(5, 10);
     double c = std::pow(10.0, e) * (1.0 - G.g) * (rng.coin() ? 1.0 : 2.5);
     tieStyle = (int)rng.below(4);        // 0 rounding-level, 1 gap in (tolSmall, tolGeneral*|Q|), 2 chain, 3 exact tie
